@@ -15,6 +15,7 @@ PLAN = {
     "c19_files": ["asan"],
     "c02_diff": ["asan"],
     "c08_reeval": ["asan"],
+    "c04_lookup": ["asan"],
 }
 
 
